@@ -182,12 +182,8 @@ def hotspot(ctx, f, cfg):
         return p["outcome"][0]
 
     def expected(asg):
-        # first sight of a value (counter absent): opaque is_none -> pass; otherwise by comparison
-        isn = [k for k in asg["opaque"] if "is_none" in k]
-        if isn and asg["opaque"][isn[0]]:
-            return "pass"
-        if asg["disc"].get("cell") == 0:
-            return "pass"
+        # a value seen for the first time (counter absent) has 0 in flight and is judged by the same comparison (D27: it used to be
+        # passed unconditionally, so that a limit of 0 admitted the first request of every value)
         r = D.rel_of(asg, "observed", "limit")
         if r is None:
             return None
